@@ -40,6 +40,7 @@ type Contract struct {
 	Rank     int
 	FuelFor  map[string]int
 	File     string
+	Missing  []string // "assert/<label>: <why>": directives whose anchor no longer exists (each becomes a failed obligation)
 }
 
 func (c *Contract) clauses(kind string) []*Clause {
@@ -680,7 +681,6 @@ func (w *weaver) weave(c *Contract) {
 			}
 		}
 		if cl.Loop < 0 {
-			w.fail("%s: no loop of %s has %q in its header", cl.Line, c.FuncName, cl.LoopAnchor)
 			cl.Loop = len(loops) + 1000
 		}
 	}
@@ -753,7 +753,11 @@ func (w *weaver) weave(c *Contract) {
 			noteImports("_ = func(" + sig + "){ _ = " + expr + "}")
 		case "invariant", "rangeinv", "loopdec":
 			if cl.Loop >= len(loops) {
-				w.fail("%s: function %s has %d loops, directive names loop %d", cl.Line, c.FuncName, len(loops), cl.Loop)
+				lbl := cl.Label
+				if lbl == "" {
+					lbl = cl.Kind
+				}
+				c.Missing = append(c.Missing, fmt.Sprintf("inv/loop%d/%s: the loop this directive annotates no longer exists (%s has %d loops)", cl.Loop%1000, lbl, c.FuncName, len(loops)))
 				continue
 			}
 			if _, err := parser.ParseExpr(expr); err != nil {
@@ -812,6 +816,12 @@ func (w *weaver) weave(c *Contract) {
 				})
 			}
 			if off < 0 {
+				if cl.Kind == "assert" || cl.Kind == "lemma" {
+					// the annotated statement is gone: this directive cannot be checked any more, the
+					// rest of the contract can - it becomes one failed obligation instead of a load error
+					c.Missing = append(c.Missing, fmt.Sprintf("%s/%s: the statement this directive annotates (%q) no longer occurs in %s", cl.Kind, cl.Label, cl.Before, c.FuncName))
+					continue
+				}
 				w.fail("%s: anchor %q not found in %s", cl.Line, cl.Before, c.FuncName)
 				continue
 			}
